@@ -139,6 +139,17 @@ def cases(rng, tier):
             lines = ["alias %s = %s;" % (nm, txt) for txt, nm in g.aliases.items()] + lines
         out.append({"wgsl": "\n".join(lines) + "\n", "family": "encase_glam", "opts": {"encase": True, "mv": "Glam"},
                     "tys": structs + ([rts] if rts else []) + extra, "rts_lengths": [0, 1, 3]})
+    # large fixed arrays (lengths with zero digit groups, sizes around and above 64 KiB), in the middle of a struct and as its
+    # last member: the element count is part of the type, the members behind it sit where WGSL puts them
+    big = [(Ty("scalar", s="f32"), 10000), (Ty("vec", n=4, s="f32"), 4097), (Ty("scalar", s="u32"), 16000), (Ty("vec", n=2, s="f32"), 10010),
+           (Ty("scalar", s="f32"), 100000), (Ty("vec", n=4, s="u32"), 4096), (Ty("scalar", s="i32"), 131072), (Ty("vec", n=3, s="f32"), 10001)]
+    for i, (el, cnt) in enumerate(big if tier != "quick" else rng.sample(big, 4)):
+        g = structgen.Gen(rng)
+        mid = Ty("struct", name="Table", members=[("scale", Ty("scalar", s="f32")), ("weights", Ty("array", elem=el, n=cnt)), ("bias", Ty("vec", n=4, s="f32"))], has_rts=False)
+        last = Ty("struct", name="Tail", members=[("head", Ty("vec", n=2, s="u32")), ("data", Ty("array", elem=el, n=cnt))], has_rts=False)
+        w = "\n".join([g.render_struct(mid), g.render_struct(last), "@group(0) @binding(0) var<storage, read_write> table: Table;",
+                       "@group(0) @binding(1) var<storage, read_write> tail: Tail;", "@compute @workgroup_size(1) fn main() {}"]) + "\n"
+        out.append({"wgsl": w, "family": "large_arrays", "opts": {"encase": True, "mv": "Glam"}, "tys": [mid, last], "rts_lengths": [0]})
     # two structs whose names are equal up to the case style, one nested in a third: every field refers to ITS struct
     for i in range({"quick": 4, "search": 8, "thorough": 16}[tier]):
         sa = Ty("struct", name="light_data", members=[("color", Ty("vec", n=4, s="f32")), ("range", Ty("scalar", s="f32"))], has_rts=False)
